@@ -1,5 +1,5 @@
 SPECIFICATION Spec
-CONSTANTS Pitches = {0, 1, 3, 24, 49}
+CONSTANTS Pitches = {0, 1, 5, 6, 24}
           NF = 2
           NP = 2
           W = {1, 2}
